@@ -14,5 +14,7 @@
 // limitations under the License.
 
 fn main() {
+    // `--cfg flacenc_verif` enables the observation points in `src/verif.rs`.
+    println!("cargo:rustc-check-cfg=cfg(flacenc_verif)");
     built::write_built_file().expect("Failed to acquire build-time information")
 }
